@@ -15,7 +15,7 @@ theorem updateFrom_nip (o : RenderOptions) : NIP b (updateFrom o) := by
 theorem apiRender_nip (env : Env) (fuel : Nat) (src : Str) (o : RenderOptions) : NIP b (apiRender env fuel src o) := by
   have h1 := documentInit_nip (b := b)
   have h2 := updateFrom_nip (b := b) o
-  have h3 := (mkRec_nip env fuel b).2
+  have h3 := (mkRec_nip env fuel b).2 0
   cases b <;> (unfold apiRender; nip_go)
 
 end Rimu
